@@ -725,6 +725,9 @@ static void oracle_clone_block(const std::string& type, const VerCfg& vc, const 
 	std::string c = put(c3.get());
 	st.add("block_clones_checked");
 	J cj = case_json(type, vc, s).set("runner", "e1_main.cpp");
+	// a clone is an object of the same class (the bytes alone cannot tell two classes with the same layout apart)
+	if (typeid(*c1) != typeid(*obj) || std::string(c1->GetBlockName()) != obj->GetBlockName() || typeid(*c3) != typeid(*obj))
+		st.violation(type + ":" + game_of(vc) + ":clone-is-another-class", vf::strf("%s (%s): Clone() of a %s yields a %s", type.c_str(), vc.name, obj->GetBlockName(), c1->GetBlockName()), cj);
 	if (a != b)
 		st.violation(type + ":" + game_of(vc) + ":clone-bytes-differ", vf::strf("%s (%s): a clone of the block writes different bytes than the block itself (%s)", type.c_str(), vc.name, first_diff(b, a).c_str()), cj);
 	else if (c != b)
@@ -742,6 +745,17 @@ static void oracle_copy_file(const std::string& type, const VerCfg& vc, const Sc
 	std::string ref = s1::save(twin, true);
 	{
 		NifFile copy(src);
+		{
+			// block by block the copy holds objects of the same classes
+			auto &hs = src.GetHeader(), &hc = copy.GetHeader();
+			for (uint32_t i = 0; i < hs.GetNumBlocks() && i < hc.GetNumBlocks(); i++) {
+				auto a0 = hs.GetBlock<NiObject>(i), c0 = hc.GetBlock<NiObject>(i);
+				if (a0 && c0 && typeid(*a0) != typeid(*c0)) {
+					st.violation(type + ":" + game_of(vc) + ":model-copy-block-is-another-class", vf::strf("%s (%s): block %u of the copy is a %s, the source's is a %s", type.c_str(), vc.name, i, c0->GetBlockName(), a0->GetBlockName()), cj);
+					break;
+				}
+			}
+		}
 		std::string got = s1::save(copy, true);
 		if (got != ref) st.violation(type + ":" + game_of(vc) + ":model-copy-bytes-differ", vf::strf("%s (%s): a copy-constructed model saves differently from its source (%s)", type.c_str(), vc.name, first_diff(ref, got).c_str()), cj);
 		NifFile assigned;
